@@ -98,7 +98,8 @@ From ChibiV Require Import C04.ProofsDiv.
 
 Theorem quot_rem_sound : forall fuel mf x y q r, wf_big x -> wf_big y ->
   quot_rem fuel mf x y = QR q r ->
-  bval y <> 0 /\ nval q = Z.quot (bval x) (bval y) /\ nval r = Z.rem (bval x) (bval y).
+  bval y <> 0 /\ nval q = Z.quot (bval x) (bval y) /\ nval r = Z.rem (bval x) (bval y)
+  /\ wf_num q /\ wf_num r.
 Proof. exact quot_rem_spec. Qed.
 Print Assumptions quot_rem_sound.
 
